@@ -15,12 +15,12 @@ Import ListNotations.
 Lemma find_has_name_in {A} (name : A -> oname) l ns y n :
   names_ok name l ns -> In y l -> name y = Some n -> find (has_name name n) l = Some y.
 Proof.
-  intros [Hm _ Hd] Hin Hy. apply in_split in Hin as [l1 [l2 ->]].
+  intros [Hm Hd] Hin Hy. apply in_split in Hin as [l1 [l2 ->]].
   eapply find_has_name_at; eassumption.
 Qed.
 
-Lemma lookup_in {A} (name : A -> oname) sk l y n :
-  named_ok name l = true -> In y l -> name y = Some n -> lookup name sk n l = Some y.
+Lemma lookup_in {A} (name : A -> oname) l y n :
+  named_ok name l = true -> In y l -> name y = Some n -> lookup name n l = Some y.
 Proof.
   intros Hn Hin Hy. apply named_ok_spec in Hn as [ns Hok].
   apply in_split in Hin as [l1 [l2 ->]]. eapply lookup_at; eassumption.
@@ -29,27 +29,27 @@ Qed.
 Lemma named_in_some {A} (name : A -> oname) l y :
   named_ok name l = true -> In y l -> exists n, name y = Some n.
 Proof.
-  intros Hn Hin. apply named_ok_spec in Hn as [ns [Hm _ _]].
+  intros Hn Hin. apply named_ok_spec in Hn as [ns [Hm _]].
   destruct (map_some_in name l ns y Hm Hin) as [n [Hy _]]. exists n. assumption.
 Qed.
 
-Lemma cmp_each_complete {A} (name : A -> oname) skip sk f (R : A -> A -> Prop) la lb :
+Lemma cmp_each_complete {A} (name : A -> oname) skip f (R : A -> A -> Prop) la lb :
   named_ok name lb = true -> sib_equiv R la lb ->
   (forall x y, R x y -> name x = name y) ->
   (forall x y, In x la -> In y lb -> R x y -> f x y = Accept) ->
-  cmp_each name skip (fun n => lookup name sk n lb) f la = Accept.
+  cmp_each name skip (fun n => lookup name n lb) f la = Accept.
 Proof.
   intros Hn [lb' [Hp HF]] Hname Hf.
   assert (Hincl : incl lb' lb) by (intros z Hz; apply (Permutation_in _ Hp); assumption).
   clear Hp. revert Hincl Hf. induction HF as [|x y la lb' Hxy HF IH]; intros Hincl Hf; [reflexivity|].
   assert (Hy : In y lb) by (apply Hincl; left; reflexivity).
   destruct (named_in_some name lb y Hn Hy) as [n Hyn].
-  assert (Hrest : cmp_each name skip (fun n0 => lookup name sk n0 lb) f la = Accept).
+  assert (Hrest : cmp_each name skip (fun n0 => lookup name n0 lb) f la = Accept).
   { apply IH; [intros z Hz; apply Hincl; right; assumption|].
     intros x' y' Hx' Hy'. apply Hf. right. assumption. assumption. }
   cbn. rewrite (Hname x y Hxy), Hyn.
   destruct (skip x); [assumption|].
-  rewrite (lookup_in name sk lb y n Hn Hy Hyn), Hrest.
+  rewrite (lookup_in name lb y n Hn Hy Hyn), Hrest.
   rewrite (Hf x y (or_introl eq_refl) Hy Hxy). reflexivity.
 Qed.
 
@@ -59,11 +59,11 @@ Proof.
 Qed.
 
 (* ---------- ports ---------- *)
-Lemma cmp_port_complete x o c : wf_port o = true -> port_rel o c -> cmp_port x x o c = Accept.
+Lemma cmp_port_complete x o c : port_rel o c -> cmp_port x x o c = Accept.
 Proof.
-  unfold wf_port, cmp_port. intros Hw [H1 [H2 [H3 [H4 H5]]]].
+  unfold cmp_port. intros [H1 [H2 [H3 [H4 H5]]]].
   rewrite <- H1, <- H2, <- H3, <- H4, <- H5.
-  rewrite !oname_eqb_refl, dir_eqb_refl, eqb_reflx, Hw, Nat.eqb_refl, ctx_eqb_refl. reflexivity.
+  rewrite !oname_eqb_refl, dir_eqb_refl, eqb_reflx, Nat.eqb_refl, ctx_eqb_refl. reflexivity.
 Qed.
 
 (* ---------- pins ---------- *)
@@ -90,16 +90,13 @@ Lemma cmp_pin_complete x io ic p :
   (forall i, In i io -> asg_ok i) -> refs_agree io ic -> wf_pin io p = true ->
   cmp_pin x x io ic p p = Accept.
 Proof.
-  intros Hio Hra Hp. destruct p as [q b|[n|] q b| | |]; cbn in Hp; try discriminate.
+  intros Hio Hra Hp. destruct p as [q b|[n|] q b| | | |]; cbn in Hp; try discriminate.
   - unfold cmp_pin. cbn. apply inner_equiv_refl.
   - unfold cmp_pin. cbn [resolve].
     destruct (find (has_name i_name n) io) as [i|] eqn:Ef; [|discriminate].
     destruct (i_ref i) as [r|] eqn:Er; [|discriminate].
     destruct (Hra n i Ef) as [i' [Ef' Er']]. rewrite Ef', Er', Er.
-    apply find_has_name_some in Ef as [Hin Hn].
-    rewrite inst_equiv_refl.
-    + cbn. apply inner_equiv_refl.
-    + specialize (Hio i Hin). unfold asg_ok in Hio. rewrite Hn in Hio. assumption.
+    rewrite inst_equiv_refl. cbn. apply inner_equiv_refl.
 Qed.
 
 Lemma zip_pins_complete x io ic w :
@@ -113,7 +110,7 @@ Qed.
 (* a pin that resolves among the children of the first definition resolves among those of the second *)
 Lemma wf_pin_agree io ic p : refs_agree io ic -> wf_pin io p = true -> wf_pin ic p = true.
 Proof.
-  intros Hra. destruct p as [q b|[n|] q b| | |]; cbn [wf_pin]; try discriminate; [reflexivity|].
+  intros Hra. destruct p as [q b|[n|] q b| | | |]; cbn [wf_pin]; try discriminate; [reflexivity|].
   destruct (find (has_name i_name n) io) as [i|] eqn:Ef; [|discriminate].
   destruct (Hra n i Ef) as [i' [Ef' Er']]. rewrite Ef', Er'. tauto.
 Qed.
@@ -144,7 +141,7 @@ Proof.
 Qed.
 
 Definition key_of (p : pinref) : pkey :=
-  match raw_key p with inr k => k | inl _ => (false, None, None, 0) end.
+  match raw_key p with inr k => k | inl _ => (false, None, None, None) end.
 
 Lemma keys_of_wire x io w : (forall i, In i io -> asg_ok i) -> forallb (wf_pin io) w = true ->
   Forall2 (fun p k => pin_key x io p = inr k) w (map key_of w).
@@ -261,7 +258,7 @@ Qed.
 Lemma cmp_inst_complete o c : props_ok o -> inst_rel props_eq o c ->
   cmp_inst (Some o) (Some c) = Accept.
 Proof.
-  unfold props_ok, cmp_inst. intros Hk [H1 [H2 [H3 [Hl [[H4 H5] [H6 H7]]]]]]. cbn [oi_name oi_oid].
+  unfold props_ok, cmp_inst. intros Hk [H1 [H2 [H3 [Hl [[H4 H5] [H6 H7]]]]]].
   rewrite <- H1, <- H2, <- H3. rewrite !oname_eqb_refl, cmp_ref_refl. cbn.
   destruct (i_props o) as [po|], (i_props c) as [pc|]; try discriminate Hl; [|reflexivity].
   cbn in Hl. inversion Hl as [Hlen]. rewrite Hlen, Nat.eqb_refl. cbn [check seq].
@@ -332,35 +329,27 @@ Proof. induction ws as [|w ws IH]; intros d H; cbn; [assumption|]. apply IH. app
 Fixpoint asg_ws (names : list oname) : list str :=
   match names with
   | [] => []
-  | Some n :: r => if starts_with asg_prefix n
-                   then match asg_width n with Some w => w :: asg_ws r | None => asg_ws r end
-                   else asg_ws r
-  | None :: r => asg_ws r
+  | n :: r => match asg_class n with Some w => w :: asg_ws r | None => asg_ws r end
   end.
 
 Lemma asg_ws_perm l l' : Permutation l l' -> Permutation (asg_ws l) (asg_ws l').
 Proof.
   induction 1 as [|x l l' Hp IH|x y l|l1 l2 l3 H1 IH1 H2 IH2]; cbn [asg_ws].
   - constructor.
-  - destruct x as [n|]; [|assumption]. destruct (starts_with asg_prefix n); [|assumption].
-    destruct (asg_width n); [constructor|]; assumption.
-  - destruct x as [n|], y as [m|]; try apply Permutation_refl;
-      repeat match goal with |- context [starts_with asg_prefix ?z] => destruct (starts_with asg_prefix z) end;
-      repeat match goal with |- context [asg_width ?z] => destruct (asg_width z) end;
-      try apply Permutation_refl. apply perm_swap.
+  - destruct (asg_class x); [constructor|]; assumption.
+  - destruct (asg_class x), (asg_class y); try apply Permutation_refl. apply perm_swap.
   - eapply Permutation_trans; eassumption.
 Qed.
 
-Lemma count_widths_addall l : (forall i, In i l -> asg_ok i) ->
-  forall d, count_widths l d = Some (addall (asg_ws (map i_name l)) d).
+Lemma count_widths_addall l :
+  forall d, count_widths l d = addall (asg_ws (map i_name l)) d.
 Proof.
-  induction l as [|i l IH]; intros Hl d; [reflexivity|].
-  assert (Hi : asg_ok i) by (apply Hl; left; reflexivity).
-  assert (Hl' : forall j, In j l -> asg_ok j) by (intros; apply Hl; right; assumption).
-  cbn [count_widths map asg_ws]. unfold scan_match. unfold asg_ok in Hi.
-  destruct (i_name i) as [n|]; [|contradiction].
-  rewrite asg_pattern_prefix. destruct (starts_with asg_prefix n) eqn:E; [|apply IH; assumption].
-  destruct (Hi eq_refl) as [w ->]. cbn [addall fold_left]. apply IH. assumption.
+  induction l as [|i l IH]; intros d; [reflexivity|].
+  cbn [count_widths map asg_ws]. unfold scan_match.
+  destruct (i_name i) as [n|] eqn:En; [|cbn [asg_class]; apply IH].
+  rewrite asg_pattern_prefix. cbn [asg_class].
+  destruct (starts_with asg_prefix n) eqn:E; [|apply IH].
+  destruct (asg_width n) as [w|]; [cbn [addall fold_left]|]; apply IH.
 Qed.
 
 Lemma cmp_assign_complete o c :
@@ -369,7 +358,7 @@ Lemma cmp_assign_complete o c :
   cmp_assign o c = Accept.
 Proof.
   intros Ho Hc Hp. unfold cmp_assign.
-  rewrite (count_widths_addall _ Hc), (count_widths_addall _ Ho).
+  cbv zeta. rewrite !count_widths_addall.
   set (cd := addall (asg_ws (map i_name (d_insts c))) []).
   set (od := addall (asg_ws (map i_name (d_insts o))) []).
   replace (forallb _ cd) with true; [reflexivity|]. symmetry. apply forallb_forall.
@@ -400,16 +389,16 @@ Proof.
   unfold cmp_def. cbv zeta. rewrite <- H1, <- H2. rewrite !oname_eqb_refl.
   rewrite (sib_equiv_length _ _ _ H3), (sib_equiv_length _ _ _ H4), (sib_equiv_length _ _ _ H5).
   rewrite !Nat.eqb_refl. cbn [check seq].
-  rewrite (cmp_each_complete p_name no_skip false _ port_rel);
+  rewrite (cmp_each_complete p_name no_skip _ port_rel);
     [|apply (wd_np c Hwc)|assumption|intros x y [G _]; exact G|].
-  2:{ intros x y Hx _ Hr. apply cmp_port_complete; [apply (wd_wp o Hwo); assumption|assumption]. }
+  2:{ intros x y Hx _ Hr. apply cmp_port_complete; assumption. }
   cbn [seq].
-  rewrite (cmp_each_complete c_name no_skip false _ (cable_rel WR));
+  rewrite (cmp_each_complete c_name no_skip _ (cable_rel WR));
     [|apply (wd_nc c Hwc)|assumption|intros x y [G _]; exact G|].
   2:{ intros x y Hx _ Hr. apply cmp_cable_complete; try assumption.
       pose proof (wd_wc o Hwo) as Hw. rewrite forallb_forall in Hw. apply Hw. assumption. }
   cbn [seq].
-  rewrite (cmp_each_complete i_name is_asg_inst true _ (inst_rel props_eq));
+  rewrite (cmp_each_complete i_name is_asg_inst _ (inst_rel props_eq));
     [|apply (wd_ni c Hwc)|assumption|intros x y [G _]; exact G|].
   2:{ intros x y Hx _ Hr. apply cmp_inst_complete; [|assumption].
       apply wf_inst_props_ok. apply (wd_wi o Hwo). assumption. }
@@ -426,7 +415,7 @@ Proof.
   rewrite forallb_forall in Hwo, Hwc.
   unfold cmp_lib. rewrite <- H1, <- H2. rewrite !oname_eqb_refl.
   rewrite (sib_equiv_length _ _ _ H3), Nat.eqb_refl. cbn [check seq].
-  apply (cmp_each_complete d_name no_skip false _ (defn_rel props_eq WR));
+  apply (cmp_each_complete d_name no_skip _ (defn_rel props_eq WR));
     [assumption|assumption|intros x y [G _]; exact G|].
   intros x y Hx Hy Hr. apply cmp_def_complete; [apply Hwo; assumption|apply Hwc; assumption|apply Hdom; assumption|assumption].
 Qed.
@@ -453,7 +442,7 @@ Proof.
   2:{ symmetry. pose proof (cmp_top_complete _ _ Hta H3) as G.
       destruct (n_top a), (n_top b); exact G. }
   cbn [seq].
-  apply (cmp_each_complete l_name no_skip false _ (lib_rel props_eq WR));
+  apply (cmp_each_complete l_name no_skip _ (lib_rel props_eq WR));
     [assumption|assumption|intros x y [G _]; exact G|].
   intros x y Hx Hy Hr. apply cmp_lib_complete; [apply Hla; assumption|apply Hlb; assumption| |assumption].
   intros d Hd. apply (Hdom x d); assumption.
